@@ -150,6 +150,10 @@ class G:
         f = r.randrange(self.nargs)
         j = r.randrange(self.nargs)
         c1, c2 = r.choice([1, 5, 7, 9, 255]), r.choice([2, 4, 42, 100])
+        if r.random() < 0.5:
+            # the same constant in both subtrees: if `a_f == c1`, learnt in the harmless subtree, were visible in its sibling,
+            # the sibling's guard would be decided without the constraint and the reported counterexample would be arbitrary
+            c2 = c1
         self.add(j, 0, 1)
         self.add(f, c1, c2)
         lt_outer, lt_in1, lt_in2 = self.label(), self.label(), self.label()
